@@ -182,7 +182,7 @@ void exercise(const std::string& path, size_t image_size, int mode, bool verify,
                 }
                 if (n <= 0) break;
             }
-            if (r.below(3) == 0) { int64_t sk = cq::column_skip(cr, (int64_t)r.below(500)); SIM_CHECK(sk >= 0, "contract.negative_skip", "column_skip returned %lld", (long long)sk); }
+            if (r.below(3) == 0) { int64_t ask = (int64_t)r.below(500); int64_t sk = cq::column_skip(cr, ask); SIM_CHECK(sk <= ask, "contract.skip_exceeds_request", "column_skip(%lld) returned %lld", (long long)ask, (long long)sk); mixi(sk); }      // negative: error (hostile file)
             (void)cq::column_has_next(cr);
             if (r.below(3) == 0) open_cols.push_back(cr); else cq::column_reader_free(cr);
         } else if (k <= 8) {    // batch reader
